@@ -102,6 +102,20 @@ def run(chk, replay=None):
         for al in als:
             jobs.append((("synth", spec), al, None, [], chk.seed, True))
             meta.append((f"synth:{k}:{nfs}", spec, al))
+    # deep cascades (five final states, fully sequential): the rotation chain of the innermost particles has four links
+    deep, tries = [], 0
+    while len(deep) < (4 if tier == "thorough" else 2) and tries < 6000:
+        tries += 1
+        spec = U.synth_spec(rng, nfs=5, formalism="helicity", helset="restricted", maxspin2=2, ntop=1)
+        if spec is None or len(spec["transitions"]) > 24:
+            continue
+        tree = [tuple(s_) for s_ in spec["meta"]["tree"]]
+        pair = [s_ for s_ in tree if len(s_) == 2]
+        if sorted(len(s_) for s_ in tree if len(s_) > 1) == [2, 3, 4, 5] and any(spec["particles"][f"f{i}"]["spin2"] > 0 and spec["particles"][f"f{i}"]["mass"] > 0 for i in pair[0]):
+            deep.append(spec)
+    for k, spec in enumerate(deep):
+        jobs.append((("synth", spec), "axis", None, [], chk.seed, True))
+        meta.append((f"synth5:{k}", spec, "axis"))
     # numeric: aligned vs unaligned on events, real single-topology reactions (+ synthetic with massless half-integer spin)
     numeric_reactions = [("real", "jpsi_ksp_sigma", "helicity")] + ([("real", "jpsi_3pi_rho0", "helicity"), ("real", "jpsi_ksp_sigma", "canonical-helicity")] if tier == "thorough" else [])
     small = [s for s in specs if s["meta"]["nfs"] == 3 and len(s["transitions"]) <= 8]
@@ -149,6 +163,8 @@ def run(chk, replay=None):
             records.append({"kind": "built", "id": rid, "ntop": ntop, "ok": res["ok"], "alignment": al, "error": res["error"][:120]})
         if res["ok"] == 1 and res.get("pools") is not None and al not in ("none", "relabel"):
             records.append({"kind": "pools", "id": rid, "outer": outer, "pools": res["pools"]})
+            if res.get("links"):
+                records.append({"kind": "links", "id": rid + ":links", "links": res["links"], "alignment": al})
             chk.nontrivial((al, tuple((o["spin2"], o["massless"]) for o in outer)))
         if job[2] is not None and res["ok"] == 1:
             by_numeric.setdefault(id(job[0]) if job[0][0] == "synth" else job[0], {})[al] = (res["I"], outer, ntop, rid)
